@@ -170,6 +170,11 @@ def check(ctx):
 
     # ---- C07.exact ----------------------------------------------------------------------------------------------------------------
     ff = prog.func('ast_view', 'find_fqn')
+    from .shared import fqn_match_form
+    okf, whyf, nodef = fqn_match_form(ctx, ff)
+    if okf is not None:
+        run.add('C07.exact', ff.module.name, ff.qualname, nodef if nodef is not None else 'match', okf, whyf, node=nodef)
+        return
     eqs = [n for n in iter_own_nodes(ff.node) if isinstance(n, ast.Compare)]
     good = [n for n in eqs if len(n.ops) == 1 and isinstance(n.ops[0], ast.Eq) and
             any(ast.unparse(s).endswith('.fqn') for s in (n.left, n.comparators[0]))]
